@@ -14,7 +14,7 @@ classdef('rbql_engine.RBQLContext',
 
 ACTIONS = RecDict[{'FROM': RecDict[{'text': Str}], 'WITH': Str, 'ORDER BY': RecDict[{'text': Str, 'reverse': Bool}], 'UPDATE': RecDict[{'text': Str}],
                    'GROUP BY': RecDict[{'text': Str}], 'JOIN': RecDict[{'text': Str, 'join_subtype': Str}], 'WHERE': RecDict[{'text': Str}],
-                   'SELECT': RecDict[{'text': Str, 'distinct_count': Bool, 'distinct': Bool}], 'EXCEPT': RecDict[{'text': Str}]}]
+                   'SELECT': RecDict[{'text': Str, 'distinct_count': Bool, 'distinct': Bool, 'top': Int}], 'EXCEPT': RecDict[{'text': Str}], 'LIMIT': RecDict[{'text': Str}]}]
 
 
 @trusted('rbql_engine.cleanup_query', trusted='A-PARSE: text -> text (comment lines, line breaks, trailing semicolon); bounded stand-in bounded/jobs_c08.py')
@@ -83,9 +83,13 @@ def _(update_expression: Str, input_variables_map: Opaque, string_literals: List
     raises('rbql_engine.RbqlParsingError', True, 'bad_update_expression')
 
 
-@trusted('rbql_engine.find_top', trusted='A-PARSE: TOP n / LIMIT n extraction')
+@contract('rbql_engine.find_top', name='C02.find_top', props=['C02', 'C08'])
 def _(rb_actions: ACTIONS) -> Opt[Int]:
-    raises('rbql_engine.RbqlParsingError', True, 'limit_is_not_a_number')
+    requires('SELECT' in rb_actions and implies('LIMIT' in rb_actions, 'text' in rb_actions['LIMIT']), 'select_query')
+    # LIMIT n wins over TOP n; a count of 0 is a count (not "no limit"); no TOP and no LIMIT means None
+    ensures(implies('LIMIT' in rb_actions, not is_none(result) and opt_val(result) == int_of(rb_actions['LIMIT']['text'])), 'limit_count')
+    ensures(implies(not ('LIMIT' in rb_actions), is_none(result) == (not ('top' in rb_actions['SELECT'])) and implies(not is_none(result), opt_val(result) == rb_actions['SELECT']['top'])), 'top_count_or_none')
+    raises('rbql_engine.RbqlParsingError', 'LIMIT' in rb_actions and not int_ok(rb_actions['LIMIT']['text']), 'limit_is_not_a_number')
 
 
 @trusted('rbql_engine.translate_except_expression', trusted='A-PARSE: EXCEPT list -> (output header, select_except call text)')
@@ -129,7 +133,7 @@ def actions_ok(a):
             and implies('FROM' in a, 'text' in a['FROM']) and implies('ORDER BY' in a, 'text' in a['ORDER BY'] and 'reverse' in a['ORDER BY'])
             and implies('UPDATE' in a, 'text' in a['UPDATE']) and implies('GROUP BY' in a, 'text' in a['GROUP BY'])
             and implies('JOIN' in a, 'text' in a['JOIN'] and 'join_subtype' in a['JOIN']) and implies('WHERE' in a, 'text' in a['WHERE'])
-            and implies('SELECT' in a, 'text' in a['SELECT']) and implies('EXCEPT' in a, 'text' in a['EXCEPT'])
+            and implies('SELECT' in a, 'text' in a['SELECT']) and implies('EXCEPT' in a, 'text' in a['EXCEPT']) and implies('LIMIT' in a, 'text' in a['LIMIT'])
             and implies('JOIN' in a, a['JOIN']['join_subtype'] == 'JOIN' or a['JOIN']['join_subtype'] == 'INNER JOIN' or a['JOIN']['join_subtype'] == 'LEFT JOIN'
                         or a['JOIN']['join_subtype'] == 'LEFT OUTER JOIN' or a['JOIN']['join_subtype'] == 'STRICT LEFT JOIN'))
 
@@ -199,3 +203,62 @@ def _(query_text: Str, input_iterator: Opt[Obj['rbql_engine.RBQLInputIterator']]
     ensures(chain_over(query_context.writer, old(query_context.writer)), 'chain_is_sort_then_dedup_then_truncate')
     ensures(ctx_inv(query_context) and fresh_writer(query_context.writer), 'context_ready_for_the_main_loop')
     modifies(query_context, anything())
+
+
+# ---------------------------------------------------------------- query(): parse, run, finish once, collect warnings
+classdef('rbql_engine.RBQLInputIterator', ghost=dict(warn=Seq[Str]))
+classdef('rbql_engine.RBQLOutputWriter', ghost=dict(warn=Seq[Str]))
+
+
+@contract('rbql_engine.RBQLContext.__init__', name='C16.context.init', props=['C16', 'C15'], store_policy='none')
+def _(self: Obj['rbql_engine.RBQLContext'], input_iterator: Obj['rbql_engine.RBQLInputIterator'], output_writer: Obj['rbql_engine.RBQLOutputWriter'], user_init_code: Str):
+    # C16: all per-query mutable state lives in this object, created per call
+    ensures(same(self.writer, output_writer) and same(self.input_iterator, input_iterator) and self.user_init_code == user_init_code, 'holds_the_callers_objects')
+    ensures(is_none(self.unnest_list) and is_none(self.top_count) and is_none(self.sort_key_expression) and self.aggregation_stage == 0 and is_none(self.join_map)
+            and is_none(self.join_map_impl) and len(keys(self.like_regex_cache)) == 0 and len(self.functional_aggregators) == 0
+            and is_fresh(self.like_regex_cache) and is_fresh(self.functional_aggregators), 'fresh_per_query_state')
+    modifies(self)
+
+
+@trusted('rbql_engine.compile_and_run', trusted='A-EXEC: runs the generated main loop (verified per variant as gen:*): offers records to the writer chain, never finishes it; may fail with the error classes of the loops')
+def _(query_context: Obj['rbql_engine.RBQLContext'], user_namespace: Opaque):
+    requires(not query_context.writer.finished, 'writer_open')
+    ensures(not query_context.writer.finished and same(query_context.writer, old(query_context.writer)) and is_none(query_context.join_map_impl) == is_none(old(query_context.join_map_impl))
+            and same(query_context.input_iterator, old(query_context.input_iterator)), 'typestate_of_the_loops')
+    raises('rbql_engine.RbqlRuntimeError', not query_context.writer.finished, 'runtime_error_leaves_the_writer_unfinished')
+    raises('rbql_engine.RbqlParsingError', not query_context.writer.finished, 'parsing_error_leaves_the_writer_unfinished')
+    raises('SyntaxError', not query_context.writer.finished, 'syntax_error_leaves_the_writer_unfinished')
+    modifies(anything())
+
+
+@trusted('rbql_engine.RBQLInputIterator.get_warnings', trusted='A-ITER: interface method (proved for TableIterator and CSVRecordIterator): the warnings of this iterator')
+def _(self: Obj['rbql_engine.RBQLInputIterator']) -> List[Str]:
+    ensures(contents(result) == self.warn and allocated(result), 'its_warnings')
+
+
+@trusted('rbql_engine.RBQLOutputWriter.get_warnings', trusted='A-WRITER: interface method (proved for CSVWriter): the warnings of this writer')
+def _(self: Obj['rbql_engine.RBQLOutputWriter']) -> List[Str]:
+    ensures(contents(result) == self.warn and allocated(result), 'its_warnings')
+
+
+@contract('rbql_engine.HashJoinMap.get_warnings', name='C14.map.warnings', props=['C14'])
+def _(self: Obj['rbql_engine.HashJoinMap']) -> List[Str]:
+    ensures(contents(result) == self.record_iterator.warn, 'warnings_of_the_join_table')
+
+
+@contract('rbql_engine.query', name='C15.query', props=['C15', 'C14'], store_policy='none')
+def _(query_text: Str, input_iterator: Obj['rbql_engine.RBQLInputIterator'], output_writer: Obj['rbql_engine.RBQLOutputWriter'], output_warnings: List[Str],
+      join_tables_registry: Opt[Obj['rbql_engine.RBQLTableRegistry']], user_init_code: Str, user_namespace: Opaque):
+    requires(fresh_writer(output_writer) and not output_writer.sorted_iface and output_writer.header_calls == 0, 'unused_writer')
+    requires(not same(output_writer, input_iterator), 'writer_is_not_the_iterator')
+    local_types(query_context=Obj['rbql_engine.RBQLContext'])
+    # C15: after a successful run the top of the writer chain has been finished exactly once: the obligations are at the call
+    # sites -- the context handed to the parser is fresh, the writer handed to the main loop is unfinished, finish() is called
+    # on an unfinished writer (its precondition finish_once), and it is not called on any exceptional path (none of the
+    # raises below can come from after it except the warning getters, which are assumed not to raise)
+    raises('rbql_engine.RbqlParsingError', True, 'query_error')
+    raises('rbql_engine.RbqlRuntimeError', True, 'query_error')
+    raises('rbql_engine.RbqlIOHandlingError', True, 'query_error')
+    raises('SyntaxError', True, 'query_error')
+    raises('AssertionError', True, 'query_error')
+    modifies(anything())
